@@ -39,6 +39,12 @@ STRING_FORMATS = {
 UNKNOWN_STRING_FORMATS = ["email", "hostname", "uri", "time", "wibble"]
 
 
+def near_miss(f):
+    out = [f + "32", f + "64", f + "0", f + "s", f.upper(), f.capitalize(), "x" + f, f[:-1], f + " ", " " + f, f.replace("-", "_"), f.replace("-", ""),
+           f.replace("int", "i").replace("uint", "u"), f.rstrip("0123456789"), f.rstrip("0123456789") + "128", f + "-" + f]
+    return [x for x in out if x and x != f]
+
+
 def _mk(family, schema, **feat):
     c = {"family": family, "schema": schema, "features": feat}
     c["key"] = key_of([family, schema])
@@ -93,6 +99,17 @@ def cases(tier, seed):
             s = {"type": "string", "format": fmt}
             s.update(extra)
             out.append(_mk("strfmt", s, fmt=fmt))
+    # near-miss format names: every recognised format name perturbed (width suffix, case, plural, separator, truncation); anything that is
+    # not exactly a recognised name must behave like no format at all (f64 / i64 / String), never like the name it resembles
+    for ty, names in (("number", ["float", "double"]), ("integer", [f for f in FORMAT_RANGE]), ("string", list(STRING_FORMATS))):
+        known = set(names) | set(FORMAT_RANGE) | set(STRING_FORMATS) | {"float", "double"}
+        seen = set()
+        for f in names:
+            for nm in near_miss(f):
+                if nm in known or nm in seen:
+                    continue
+                seen.add(nm)
+                out.append(_mk("fmtnear", {"type": ty, "format": nm}, fmt=nm, base=f, ty=ty))
     for fmt in ["float", "double", "wibble", None]:
         for extra in ({}, {"minimum": 0}, {"maximum": 1.5}):
             s = {"type": "number"}
@@ -258,6 +275,14 @@ def execute(cases_, tier, seed):
             if b != want:
                 res.violations.append(Violation(k, "string-format-type", "format %s mapped to %s, want %s" % (c["features"]["fmt"], b, want), c,
                                                 expected=want, observed=b, features=c["features"]))
+        elif fam == "fmtnear":
+            op = a["ops"][0]
+            b = _inner_builtin(a) if op["status"] == "ok" else op["status"]
+            want = {"number": "f64", "integer": "i64", "string": "String"}[c["features"]["ty"]]
+            nontrivial += 1
+            if b != want:
+                res.violations.append(Violation(k, "near-miss-format", "unrecognised format %r (near %r) on type %s mapped to %s, want %s" % (
+                    c["features"]["fmt"], c["features"]["base"], c["features"]["ty"], b, want), c, expected=want, observed=b, features=c["features"]))
         elif fam == "floatfmt":
             op = a["ops"][0]
             b = _inner_builtin(a) if op["status"] == "ok" else op["status"]
